@@ -571,6 +571,14 @@ def norm(e):
                 r_ = None
             if r_ is not None and 0 <= r_ < (1 << 64):
                 return ("const", a_[1], r_)
+        # a single-bit test has one meaning however it is spelled:  (x & m) == m  <=>  (x & m) != 0  (m a power of two)
+        if e[1] in ("Eq", "Ne"):
+            for x_, c_ in ((a_, b_), (b_, a_)):
+                if x_[0] == "bin" and x_[1] == "BitAnd" and c_[0] in ("const", "named") and isinstance(c_[2], int) and not isinstance(c_[2], bool) and c_[2] > 0 \
+                        and c_[2] & (c_[2] - 1) == 0:
+                    for m_ in (x_[2], x_[3]):
+                        if m_[0] in ("const", "named") and m_[2] == c_[2]:
+                            return ("bin", "Ne" if e[1] == "Eq" else "Eq", x_, ("const", c_[1], 0))
         return ("bin", e[1], a_, b_)
     if k == "index":
         b, i = norm(e[1]), norm(e[2])
